@@ -15,9 +15,8 @@
 (* Rows are projected to scaled integers (see the units below); B must     *)
 (* have the same number of rows and, paired in catalogue order, the same   *)
 (* identification and flags, negated peak and integrated flux, and equal   *)
-(* positions, shapes and errors.  The code path is algebraically sign      *)
-(* symmetric but not bit identical, so "equal" is 1 ppm relative, or       *)
-(* 1e-6 pixel for positions (DESIGN.md, C13).                              *)
+(* positions, shapes and errors ("equal" is defined in the symmetry        *)
+(* section below).                                                         *)
 (***************************************************************************)
 EXTENDS Fixed, Sequences, FiniteSets
 
@@ -71,43 +70,108 @@ RunIsFilterOf(run, both, np, nn) ==
     /\ Len(run) = Len(Filter(both, np, nn))
 
 (* ---------------------------- symmetry -------------------------------- *)
-(* Units of the projected columns (integers, clamped to +-IntMax):         *)
+(* Units of the projected columns (integers, clamped to +-IntMax; a        *)
+(* missing / NaN value is -IntMax on both sides):                          *)
 (*   peak, int_          1e-6 flux units (image rms ~ 1 flux unit)         *)
+(*   e_peak, e_int       1e-8 flux units                                   *)
 (*   x, y                1e-7 pixel (sky position mapped to pixels with    *)
 (*                       the FITS-standard WCS of the test image)          *)
-(*   a, b                1e-6 arcsec          pa   1e-6 deg in (-90, 90]   *)
-(*   e_peak, e_int       1e-8 flux units      e_a, e_b, e_ra, e_dec        *)
-(*                                            1e-8 arcsec                  *)
-(*   e_pa                1e-6 deg                                          *)
+(*   e_ra, e_dec         1e-7 pixel (reported error / pixel scale)         *)
+(*   a, b                1e-6 arcsec          e_a, e_b   1e-8 arcsec       *)
+(*   pa, e_pa            1e-6 deg; pa in (-90, 90] (an axis)               *)
 (*   isl, src, flags     integers as printed                               *)
+(*                                                                         *)
+(* Two levels of "equal":                                                  *)
+(*  strict  : 1 ppm relative / 1e-6 pixel / 1 ppm of 180 deg.  The code    *)
+(*            path is sign symmetric operation by operation except inside  *)
+(*            the optimiser (lmfit maps a bounded parameter through        *)
+(*            arcsin((v-min)/(max-min)), which is not bit-symmetric under  *)
+(*            min,max -> -max,-min); well-conditioned fits agree to        *)
+(*            ~1e-10.  Reported for information.                           *)
+(*  verdict : a fit that ends pinned at a parameter limit amplifies that   *)
+(*            rounding (sqrt loss at the arcsin end points), the two       *)
+(*            Levenberg-Marquardt runs stop after different numbers of     *)
+(*            iterations and the results differ by the optimiser's         *)
+(*            termination tolerance (observed: up to 4e-4 relative,        *)
+(*            0.05 of the quoted 1-sigma error, on 0.15 % of the rows).    *)
+(*            The property cannot mean to forbid that, so a value may      *)
+(*            differ by the strict tolerance or by 1/Kappa of the row's    *)
+(*            own quoted 1-sigma error, whichever is larger; quoted        *)
+(*            errors may differ by 1/ErrDiv relative; an angle error       *)
+(*            beyond Unconstrained only says "unconstrained".  A row the   *)
+(*            finder itself flags as a failed fit (FITERR, bit 0) carries  *)
+(*            no errors (-1): only identity, flags and sign are compared.  *)
 PpmTol  == 1          \* relative tolerance, parts per million
 PosTol  == 10         \* 1e-6 pixel in units of 1e-7 pixel
 Slack   == 2          \* rounding of the two projected values
 HalfPA  == 180000000  \* 180 deg in units of 1e-6 deg
 PATol   == 180        \* 1 ppm of the half turn
+Kappa   == 4          \* verdict: 1/4 of the quoted 1-sigma error
+ErrDiv  == 20         \* verdict: quoted errors equal within 5 %
+Unconstrained == 30000000   \* 30 deg
 
 Abs(x) == IF x < 0 THEN -x ELSE x
 Max2(x, y) == IF x >= y THEN x ELSE y
 
 \* |x - y| <= 1 ppm of max(|x|, |y|) (+ rounding slack); 32-bit safe
-SameRel(x, y) == Within(x, y, PpmOf(Max2(Abs(x), Abs(y)), PpmTol) + Slack)
+RelTol(x, y) == PpmOf(Max2(Abs(x), Abs(y)), PpmTol) + Slack
+SameRel(x, y) == Within(x, y, RelTol(x, y))
+
+\* 1/Kappa of the larger quoted error (errors logged in units `div` times
+\* finer than the value); 0 when no error is quoted (-1, NaN)
+SigmaTol(e1, e2, div) == LET m == Max2(e1, e2) IN
+                         IF m > 0 THEN m \div (div * Kappa) ELSE 0
+
+SameVal(x, y, e1, e2, div) == Within(x, y, Max2(RelTol(x, y), SigmaTol(e1, e2, div)))
 
 \* position angles are axes: equal modulo 180 deg
-SamePA(x, y) ==
-    \/ Within(x, y, PATol)
-    \/ Within(x, y + HalfPA, PATol) \/ Within(x + HalfPA, y, PATol)
+PAWithin(x, y, t) ==
+    \/ Within(x, y, t)
+    \/ Within(x, y + HalfPA, t) \/ Within(x + HalfPA, y, t)
+SamePA(x, y) == PAWithin(x, y, PATol)
+
+SameErr(x, y) == Within(x, y, Max2(Abs(x), Abs(y)) \div ErrDiv + Slack)
+SameErrPA(x, y) == SameErr(x, y) \/ (x >= Unconstrained /\ y >= Unconstrained)
+
+FitFailed(a) == a.flags % 2 = 1
 
 SameIds(a, b)      == a.isl = b.isl /\ a.src = b.src
 SameFlags(a, b)    == a.flags = b.flags
-PeakNegated(a, b)  == SameRel(b.peak, -a.peak) /\ (a.peak > 0 <=> b.peak < 0)
-                                               /\ (a.peak < 0 <=> b.peak > 0)
-IntNegated(a, b)   == SameRel(b.int_, -a.int_)
-SamePosition(a, b) == Within(a.x, b.x, PosTol) /\ Within(a.y, b.y, PosTol)
-SameShape(a, b)    == SameRel(a.a, b.a) /\ SameRel(a.b, b.b) /\ SamePA(a.pa, b.pa)
-SameErrors(a, b)   ==
+SignNegated(a, b)  == (a.peak > 0 <=> b.peak < 0) /\ (a.peak < 0 <=> b.peak > 0)
+
+\* ---- strict (information) ----
+PeakNegatedStrict(a, b)  == SameRel(b.peak, -a.peak) /\ SignNegated(a, b)
+IntNegatedStrict(a, b)   == SameRel(b.int_, -a.int_)
+SamePositionStrict(a, b) == Within(a.x, b.x, PosTol) /\ Within(a.y, b.y, PosTol)
+SameShapeStrict(a, b)    == SameRel(a.a, b.a) /\ SameRel(a.b, b.b) /\ SamePA(a.pa, b.pa)
+SameErrorsStrict(a, b)   ==
     /\ SameRel(a.e_peak, b.e_peak) /\ SameRel(a.e_int, b.e_int)
     /\ SameRel(a.e_a, b.e_a) /\ SameRel(a.e_b, b.e_b) /\ SameRel(a.e_pa, b.e_pa)
     /\ SameRel(a.e_ra, b.e_ra) /\ SameRel(a.e_dec, b.e_dec)
+NegRowStrict(a, b) ==
+    /\ SameIds(a, b) /\ SameFlags(a, b)
+    /\ PeakNegatedStrict(a, b) /\ IntNegatedStrict(a, b)
+    /\ SamePositionStrict(a, b) /\ SameShapeStrict(a, b) /\ SameErrorsStrict(a, b)
+
+\* ---- verdict ----
+PeakNegated(a, b) ==
+    /\ SignNegated(a, b)
+    /\ FitFailed(a) \/ SameVal(b.peak, -a.peak, a.e_peak, b.e_peak, 100)
+IntNegated(a, b) ==
+    FitFailed(a) \/ SameVal(b.int_, -a.int_, a.e_int, b.e_int, 100)
+SamePosition(a, b) ==
+    \/ FitFailed(a)
+    \/ LET t == Max2(PosTol, SigmaTol(Max2(a.e_ra, a.e_dec), Max2(b.e_ra, b.e_dec), 1))
+       IN Within(a.x, b.x, t) /\ Within(a.y, b.y, t)
+SameShape(a, b) ==
+    \/ FitFailed(a)
+    \/ /\ SameVal(a.a, b.a, a.e_a, b.e_a, 100)
+       /\ SameVal(a.b, b.b, a.e_b, b.e_b, 100)
+       /\ PAWithin(a.pa, b.pa, Max2(PATol, SigmaTol(a.e_pa, b.e_pa, 1)))
+SameErrors(a, b) ==
+    /\ SameErr(a.e_peak, b.e_peak) /\ SameErr(a.e_int, b.e_int)
+    /\ SameErr(a.e_a, b.e_a) /\ SameErr(a.e_b, b.e_b) /\ SameErrPA(a.e_pa, b.e_pa)
+    /\ SameErr(a.e_ra, b.e_ra) /\ SameErr(a.e_dec, b.e_dec)
 
 NegRow(a, b) ==
     /\ SameIds(a, b) /\ SameFlags(a, b)
@@ -118,6 +182,13 @@ NegateRun(A, B) ==
     /\ Len(A) = Len(B)
     /\ \A i \in 1..Len(A) : NegRow(A[i], B[i])
 
+NegateRunStrict(A, B) ==
+    /\ Len(A) = Len(B)
+    /\ \A i \in 1..Len(A) : NegRowStrict(A[i], B[i])
+
 \* every pair satisfies P (only meaningful when the lengths agree)
 AllPairs(A, B, P(_, _)) == \A i \in 1..Len(A) : P(A[i], B[i])
+
+\* the strict relation implies the verdict relation (checked by MC_Polarity
+\* on sample rows): the verdict never rejects what the strict level accepts
 =============================================================================
